@@ -252,8 +252,16 @@ class Gen:
         if f == 'lonlat_to_cell':
             if base is not None and r.random() < 0.75:
                 p, res = base
-                return mk(f, self.near(p, res) if r.random() < 0.8 else p, res if r.random() < 0.8 else self.any_res())
-            return mk(f, self.point(), self.any_res())
+                p = self.near(p, res) if r.random() < 0.8 else p
+                res = res if r.random() < 0.8 else self.any_res()
+            else:
+                p, res = self.point(), self.any_res()
+            x = r.random()
+            if x < 0.12:
+                p = list(p)                       # a caller-owned, mutable coordinate pair
+            elif x < 0.15:
+                p = (int(p[0]), int(p[1]))        # ints instead of floats
+            return mk(f, p, res)
         if f == 'cell_to_lonlat':
             return mk(f, self.cell(base))
         if f == 'cell_to_boundary':
@@ -281,7 +289,8 @@ class Gen:
             lo = max(cr, 0)
             return mk(f, c, min(30, lo + r.randint(0, 3 if cr >= 1 else 1)))
         if f == 'compact':
-            return mk(f, self.cell_list(base))
+            lst = self.cell_list(base)
+            return mk(f, tuple(lst) if r.random() < 0.08 else lst)
         if f == 'uncompact':
             lst = self.cell_list(base)
             rs = [res_of(c) for c in lst] or [0]
